@@ -1,4 +1,5 @@
 import ScrapliModel.Lemmas.Loss
+import ScrapliModel.Lemmas.LossNc
 import ScrapliModel.Lemmas.Channel
 import ScrapliModel.Generated.Consts
 /-!
@@ -203,6 +204,79 @@ theorem write_loss_immediate (s : St) (b : Bytes) (react : List Bytes) (rest : L
   · simp only [ostep, hf]
   · intro sched o s'' outs' hpos
     exact wstarved_never_ok sched _ s'' o outs' ⟨0, rfl, hpos⟩
+
+
+/-! ## NETCONF: `Driver.read` forwarding and `sendRPC` -/
+
+/-- Safety half for an RPC. `NInv`: the delimiter matcher first fires exactly at the end of the
+complete reply, the loss strikes before that many bytes can arrive, nothing is stored under the
+RPC's message-id. Then no interleaving of the three goroutines and no resolution of the `select`
+makes `sendRPC` return a reply. -/
+theorem nc_loss_never_ok (msgP : Bytes → Bool) (idOf : Bytes → Nat) (sched : List NActor)
+    (n n' : NSt) (r : Rpc) (outs : List Bytes) (h : NInv msgP n r) :
+    nrun msgP idOf sched n r ≠ (n', .inr (.ok outs)) := by
+  intro hr
+  obtain ⟨e, he⟩ := nrun_result msgP idOf sched n n' r _ h hr
+  simp at he
+
+/-- THE PROPERTY for an RPC in flight: if after `pre` ticks a transport read has reported the loss
+and `sendRPC` has not returned, it returns an error within `1 + (remaining writes + 1)` further
+ticks — for an RPC already waiting in its `select` that is "time of loss + 2 ticks" (one for
+`Driver.read` to pick the error up, one for the `select`). It never waits for its timer. -/
+theorem nc_loss_yields_error (msgP : Bytes → Bool) (idOf : Bytes → Nat) (pre : List Nat) (t1 : Nat)
+    (post : List Nat) (n n1 : NSt) (r r1 : Rpc) (h : NInv msgP n r) (hl : NLostArmed n)
+    (hpre : nrun msgP idOf (nticks pre) n r = (n1, .inl r1)) (hlost : n1.ch.lost = true)
+    (hpost : r.writes.length < post.length) :
+    ∃ n' e, nrun msgP idOf (nticks (pre ++ t1 :: post)) n r = (n', .inr (.error e)) := by
+  have hsplit : nticks (pre ++ t1 :: post) = nticks pre ++ (ntick t1 ++ nticks post) := by
+    simp [nticks]
+  rw [hsplit, nrun_append, hpre]
+  simp only
+  obtain ⟨i1, i2, _⟩ := nrun_inv msgP idOf (nticks pre) n n1 r r1 h hpre
+  have harm := nrun_lostArmed msgP idOf (nticks pre) n n1 r r1 h hl hpre hlost
+  obtain ⟨a, b, hab, _⟩ := ntick_split t1
+  rw [hab, List.append_assoc, List.cons_append]
+  apply narmed_returns msgP idOf a (b ++ nticks post) n1 r1 i1 harm
+  rw [rpcCount_append, rpcCount_nticks]
+  omega
+
+/-- later RPCs: with a dead transport (`left = 0`) every RPC whose reply is not already complete in
+the buffers returns an error, never a reply; one more tick than above because the channel's read
+goroutine may first have to notice. -/
+theorem nc_later_ops_error (msgP : Bytes → Bool) (idOf : Bytes → Nat) (t0 t1 : Nat) (post : List Nat)
+    (n : NSt) (r : Rpc) (h : NInv msgP n r) (h0 : n.ch.left = 0)
+    (hpost : r.writes.length < post.length) :
+    (∃ n' e, nrun msgP idOf (nticks (t0 :: t1 :: post)) n r = (n', .inr (.error e))) ∧
+    ∀ sched n' outs, nrun msgP idOf sched n r ≠ (n', .inr (.ok outs)) := by
+  refine ⟨?_, fun sched n' outs => nc_loss_never_ok msgP idOf sched n n' r outs h⟩
+  have hsplit : nticks (t0 :: t1 :: post) = ntick t0 ++ (ntick t1 ++ nticks post) := by
+    simp [nticks]
+  rw [hsplit, nrun_append]
+  rcases h0r : nrun msgP idOf (ntick t0) n r with ⟨n1, r1 | res⟩
+  · simp only
+    obtain ⟨i1, i2, _⟩ := nrun_inv msgP idOf (ntick t0) n n1 r r1 h h0r
+    obtain ⟨a0, b0, hab0⟩ := ntick_split_rdr t0
+    have harm : NArmed n1 := nrun_arms msgP idOf a0 b0 n n1 r r1 h h0 (by rw [← hab0]; exact h0r)
+    obtain ⟨a, b, hab, _⟩ := ntick_split t1
+    rw [hab, List.append_assoc, List.cons_append]
+    apply narmed_returns msgP idOf a (b ++ nticks post) n1 r1 i1 harm
+    rw [rpcCount_append, rpcCount_nticks]
+    omega
+  · simp only
+    obtain ⟨e, he⟩ := nrun_result msgP idOf (ntick t0) n n1 r res h h0r
+    exact ⟨n1, e, by rw [he]⟩
+
+/-- NETCONF hypotheses are satisfiable: a 6-byte reply cut into two reads, the connection lost after
+4 bytes; `sendRPC` (already waiting in its `select`) returns the error, whatever the tick orders -/
+example :
+    let msgP : Bytes → Bool := fun b => b == [1, 2, 3, 4, 5, 6]
+    let n : NSt := { ch := { fresh 4 .eof with pending := [[1, 2, 3], [4, 5, 6]] }, nb := [], fwd := none, store := [] }
+    let r : Rpc := { writes := [], mid := 101 }
+    NInv msgP n r ∧ NLostArmed n ∧
+    (match nrun msgP (fun _ => 101) (nticks [0, 3, 5, 1, 2]) n r with
+      | (_, .inr (.error e)) => e == .connection
+      | _ => false) = true := by
+  refine ⟨⟨⟨by decide, by decide⟩, by decide, rfl⟩, by simp [NLostArmed, fresh], by decide⟩
 
 /-! ## facts about the concrete operations -/
 
